@@ -781,6 +781,19 @@ class ProgGen:
                 init = ('decl', 'int', i, ('int', k), False)
                 cond = ('bin', '>', ('var', i), ('int', 0))
                 step = ('aug', '-', ('var', i), ('int', 1))
+            if self.chance(0.25):
+                # other spellings of the three clauses: the counter declared before the loop and (re)initialised
+                # by an assignment clause or not at all; the step as a plain assignment
+                start = init[3]
+                pre = ('decl', 'int', i, ('int', 77) if self.chance(0.5) else start, False)
+                if pre[3] == start and self.chance(0.5):
+                    init = None
+                else:
+                    init = ('set', ('var', i), start)
+                if self.chance(0.5):
+                    step = ('set', ('var', i), ('bin', step[1], ('var', i), ('int', 1)))
+                # (the counter stays in scope after the loop; it is never read there)
+                return [('block', (pre, ('for', init, cond, step, body)))]
             return [('for', init, cond, step, body)]
         if c == 'while' and self.chance(0.12):
             # a loop whose condition is a compile-time false: the body never runs, what follows does
